@@ -581,6 +581,12 @@ class EnforcedForest:
             ) and (edge.get("geometry") == kwargs.get("geometry")):
                 return False
 
+        # a node has exactly one parent: if this edge re-parents `v`
+        # drop the data stored for the edge from its previous parent
+        previous = self.parents.get(v)
+        if previous is not None and previous != u:
+            self.edge_data.pop((previous, v), None)
+
         # store a parent reference for traversal
         self.parents[v] = u
         # store kwargs for edge data keyed with tuple
